@@ -14,6 +14,7 @@ import Driver.Diff
 import Driver.HclType
 import Driver.Plan
 import Driver.Copy
+import Driver.Reverse
 open Lean
 
 def dispatch (j : Json) : Json :=
@@ -37,6 +38,7 @@ def dispatch (j : Json) : Json :=
   | "hcltype.convert" => Driver.handleHclTypeConvert j
   | "plan.shape" => Driver.handlePlanShape j
   | "copy.plan" => Driver.handleCopyPlan j
+  | "rev.plan" => Driver.handleRevPlan j
   | "h1" => Json.mkObj [("h", Atlas.Base.h1 (Driver.unhex (Driver.str j "hex")))]
   | op => Json.mkObj [("err", s!"unknown-op:{op}")]
 
